@@ -17,7 +17,9 @@ func genDirectiveLine(r *rand.Rand) string {
 	}
 	token := func() string {
 		return pick(r, []string{"foo", "bar", "a--b", "--", "-", "x.ra", "unix-shell", "x_y-z", "é", "a--", "--a", "a---b", "{{x}}", "\"\"", "@", "~", "b", "i", "s", "is", "x", "unix", "windows",
-			"[a-z]+", "(?:a|b)", "\\s", "name1", "v"})
+			"[a-z]+", "(?:a|b)", "\\s", "name1", "v",
+			// text that means something to a printf-style formatter and nothing to a directive
+			"%20", "(?:%20|\\s)", "%s", "%2[0f]", "%%", "100%", "%!d(x)", "%v%d"})
 	}
 	tokens := func(n int) string {
 		var sb strings.Builder
@@ -103,7 +105,7 @@ func genBigRa(r *rand.Rand) string {
 		case 1:
 			lines = append(lines, indent(r)+fmt.Sprintf("##! note %d about the next entry", i))
 		case 2:
-			lines = append(lines, indent(r)+"##!>   include   words"+fmt.Sprint(i%7)+pick(r, []string{"", "  --  @  ~", " -- a b   c d"}))
+			lines = append(lines, indent(r)+"##!>   include   words"+fmt.Sprint(i%7)+pick(r, []string{"", "  --  @  ~", " -- a b   c d", " -- @ (?:%20|\\s) ~ %2[0f]"}))
 		case 3:
 			lines = append(lines, "")
 		default:
